@@ -881,7 +881,7 @@ def txt_hex(text: str) -> str:
     return hx(l1(text))
 
 
-def eval_case(ctx: Ctx, c: dict):
+def _eval_case(ctx: Ctx, c: dict):
     k = c["kind"]
     rep = {"kind": k, "case": c}
     if k == "tok":
@@ -973,6 +973,18 @@ def eval_case(ctx: Ctx, c: dict):
         eval_zone_case(ctx, c, rep)
     else:
         raise ValueError(k)
+
+
+def eval_case(ctx: Ctx, c: dict):
+    """evaluate one case; an exception escaping the evaluation of a generated (well-formed) case is itself reported,
+    with the case as replay, instead of crashing the check"""
+    try:
+        _eval_case(ctx, c)
+    except Exception as e:  # noqa: BLE001
+        if c.get("_replaying"):
+            raise
+        ctx.fail(f"C09/{c.get('kind')}/unexpected-exception:{type(e).__name__}",
+                 f"evaluating a generated case raised {type(e).__name__}: {e}", {"kind": c.get("kind"), "case": c})
 
 
 def eval_zone_case(ctx: Ctx, c: dict, rep):
@@ -1352,6 +1364,17 @@ def generate(ctx: Ctx, scale: int, rng, thorough=False):
                 eval_case(ctx, c)
 
 
+def guarded_generate(ctx: Ctx, scale: int, rng, thorough=False):
+    """the generators themselves call the library (rendering names, parsing template RDATA); if that raises, report it"""
+    try:
+        generate(ctx, scale, rng, thorough)
+    except Exception as e:  # noqa: BLE001
+        import traceback
+        ctx.fail(f"C09/generator/unexpected-exception:{type(e).__name__}",
+                 "building a well-formed test input through the library raised: " + traceback.format_exc()[-1500:],
+                 {"kind": "generator", "case": {"kind": "generator", "error": repr(e)}})
+
+
 def run(ctx: Ctx):
     ctx.extra["implementation_variant"] = dict(variant())
     for p in sorted(glob.glob(os.path.join(VERIF, "corpus", "C09", "*.json"))):
@@ -1361,17 +1384,20 @@ def run(ctx: Ctx):
         ctx.count("corpus")
     # ctx.rng streams of neighbouring seeds are shifted copies of one another (state = seed * golden + c); forking
     # through one mixed output decorrelates them
-    generate(ctx, 1 if ctx.tier == "quick" else 12, ctx.rng.fork(0xC09), thorough=(ctx.tier == "thorough"))
+    guarded_generate(ctx, 1 if ctx.tier == "quick" else 12, ctx.rng.fork(0xC09), thorough=(ctx.tier == "thorough"))
 
 
 def search(ctx: Ctx):
     for m in ctx.mismatches[:50]:
         if m.case is not None:
             eval_case(ctx, m.case)
-    generate(ctx, 3 if ctx.tier == "quick" else 20, ctx.rng.fork(7))
+    guarded_generate(ctx, 3 if ctx.tier == "quick" else 20, ctx.rng.fork(7))
 
 
 def replay(ctx: Ctx, obj: dict):
+    if obj["case"].get("kind") == "generator":
+        guarded_generate(ctx, 1, ctx.rng.fork(0xC09))
+        return [f.what for f in ctx.failures]
     eval_case(ctx, obj["case"])
     return [f.what for f in ctx.failures]
 
